@@ -24,9 +24,12 @@ VARIABLES W,        \* current world
           levels,   \* observed plan: service -> number of plan levels it appears at
           calls,    \* service -> number of calls received for this operation
           mroots,   \* mutation: root field -> number of times it was sent (as a bag over calls)
-          faults    \* faults injected into this operation (set)
+          faults,   \* faults injected into this operation (set of [kind, signal])
+          inv,      \* "" or the way in which this operation is invalid (C10)
+          leaves,   \* scalar leaves of everything the services answered for this operation (C09)
+          fpayload  \* GraphQL errors the services answered with (C10)
 
-fvars == <<W, op, phase, levels, calls, mroots, faults>>
+fvars == <<W, op, phase, levels, calls, mroots, faults, inv, leaves, fpayload>>
 
 E(p) == p \in Enforce
 
@@ -34,19 +37,26 @@ NoOp == [kind |-> "none"]
 
 FInit == /\ W = [types |-> <<>>] /\ op = NoOp /\ phase = "idle"
          /\ levels = <<>> /\ calls = <<>> /\ mroots = <<>> /\ faults = {}
+         /\ inv = "" /\ leaves = {} /\ fpayload = <<>>
 
 NewWorld(w) == /\ phase = "idle"
                /\ W' = w
-               /\ UNCHANGED <<op, phase, levels, calls, mroots, faults>>
+               /\ UNCHANGED <<op, phase, levels, calls, mroots, faults, inv, leaves, fpayload>>
 
-Request(o) == /\ phase = "idle"
-              /\ op' = o /\ phase' = "running"
-              /\ levels' = <<>> /\ calls' = <<>> /\ mroots' = <<>> /\ faults' = {}
-              /\ UNCHANGED W
+Request(o, iv) == /\ phase = "idle"
+                  /\ op' = o /\ phase' = "running" /\ inv' = iv
+                  /\ levels' = <<>> /\ calls' = <<>> /\ mroots' = <<>> /\ faults' = {}
+                  /\ leaves' = {} /\ fpayload' = <<>>
+                  /\ UNCHANGED W
 
 PlanSeen(lv) == /\ phase = "running"
                 /\ levels' = lv
-                /\ UNCHANGED <<W, op, phase, calls, mroots, faults>>
+                /\ UNCHANGED <<W, op, phase, calls, mroots, faults, inv, leaves, fpayload>>
+
+FaultSeen(f) == /\ phase = "running"
+                /\ faults' = faults \cup {[kind |-> f.kind, signal |-> f.signal]}
+                /\ fpayload' = fpayload \o f.payload
+                /\ UNCHANGED <<W, op, phase, levels, calls, mroots, inv, leaves>>
 
 Count(f, k) == IF k \in DOMAIN f THEN f[k] ELSE 0
 Bump(f, k) == [x \in DOMAIN f \cup {k} |-> Count(f, x) + (IF x = k THEN 1 ELSE 0)]
@@ -150,19 +160,22 @@ BumpReqs(f, reqs) == IF reqs = <<>> THEN f
                      ELSE BumpReqs(IF Head(reqs).kw = "mutation" THEN BumpKeys(f, Head(reqs).roots) ELSE f, Tail(reqs))
 
 (* one batched call (Queryer.Query) made to a service: C12 *)
-QCallOK(c) == E("C12") => /\ Count(calls, c.svc) < Count(levels, c.svc)    \* at most one call per plan level
-                          /\ ~c.dup                                         \* identical id-lookups sent once
+QCallOK(c) == /\ E("C12") => /\ Count(calls, c.svc) < Count(levels, c.svc)    \* at most one call per plan level
+                             /\ ~c.dup                                         \* identical id-lookups sent once
+              /\ E("C10") => inv = ""           \* an invalid operation causes no downstream request
 QCallEff(c) == /\ phase = "running"
                /\ calls' = Bump(calls, c.svc)
-               /\ UNCHANGED <<W, op, phase, levels, mroots, faults>>
+               /\ UNCHANGED <<W, op, phase, levels, mroots, faults, inv, leaves, fpayload>>
 QCall(c) == QCallOK(c) /\ QCallEff(c)
 
 (* one HTTP call received by a service, with its sub-requests: C02, C06 *)
-CallOK(c) == \A i \in DOMAIN c.reqs : ReqOK(c.svc, c.reqs[i])
+CallOK(c) == /\ \A i \in DOMAIN c.reqs : ReqOK(c.svc, c.reqs[i])
+             /\ E("C10") => inv = ""
 
 CallEff(c) ==
            /\ phase = "running"
-           /\ UNCHANGED calls
+           /\ leaves' = leaves \cup Range(c.leaves)
+           /\ UNCHANGED <<calls, inv, fpayload>>
            /\ mroots' = IF op.kind = "mutation" THEN BumpReqs(mroots, c.reqs) ELSE mroots
            /\ UNCHANGED <<W, op, phase, levels, faults>>
 
@@ -178,10 +191,22 @@ RespOK(r) ==
    /\ E("C06") => (op.kind = "mutation" /\ faults = {} =>
                       \A f \in ClientMutationRoots : Count(mroots, f) = 1)
    /\ E("C06") => (op.kind = "mutation" => \A f \in DOMAIN mroots : mroots[f] <= 1)
+   \* C09: whatever a service did, the client gets a well-formed answer; a failure signal is reported;
+   \*      no value appears in data that no service returned
+   /\ E("C09") => /\ r.wellformed /\ r.status = 200
+                  /\ (\E f \in faults : f.signal) => r.errors # <<>>
+                  /\ inv = "" => Range(r.leaves) \subseteq leaves
+   \* C10: an invalid operation is answered by the gateway alone: errors, data null ...
+   /\ E("C10") => (inv # "" => r.wellformed /\ r.status = 200 /\ r.errors # <<>> /\ r.data = ZVal)
+   \*      ... and the GraphQL errors of a service reach the client with message, extensions and path intact
+   /\ E("C10") => \A i \in DOMAIN fpayload :
+                      \E j \in DOMAIN r.errorsFull : /\ r.errorsFull[j].message = fpayload[i].message
+                                                      /\ r.errorsFull[j].ext = fpayload[i].ext
+                                                      /\ r.errorsFull[j].path = fpayload[i].path
 
 RespondEff(r) == /\ phase = "running"
                  /\ phase' = "idle" /\ op' = NoOp
-                 /\ UNCHANGED <<W, levels, calls, mroots, faults>>
+                 /\ UNCHANGED <<W, levels, calls, mroots, faults, inv, leaves, fpayload>>
 
 Respond(r) == RespOK(r) /\ RespondEff(r)
 =============================================================================
